@@ -77,6 +77,7 @@ func runC08(c *Ctx) {
 	ruleTerminalFallback(c, "R8.5")
 	ruleSaveFinished(c, "R8.6")
 	ruleFailurePath(c, "R8.7")
+	ruleStateAccessUnderLock(c, "R8.8")
 }
 
 // R8.1 -------------------------------------------------------------------------------------------
@@ -759,4 +760,69 @@ func paramOfType(fn *ssa.Function, t string) *ssa.Parameter {
 		}
 	}
 	return nil
+}
+
+// R8.8: the read-decide-write of a DKG state change is one critical section. In the command path and in the packet path
+// every access to the state store (read of the current / finished state, save) happens with the process mutex held, so that
+// a command and a gossip packet cannot both decide on the same stored state.
+func ruleStateAccessUnderLock(c *Ctx, rule string) {
+	c.ranRules[rule] = true
+	e := c.lockEngine()
+	const lock = "internal/dkg.Process.lock"
+	isStoreAccess := func(ci ssa.CallInstruction) bool {
+		if !ci.Common().IsInvoke() || typeShort(ci.Common().Value.Type()) != "internal/dkg.Store" {
+			return false
+		}
+		switch ci.Common().Method.Name() {
+		case "GetCurrent", "GetFinished", "SaveCurrent", "SaveFinished":
+			return true
+		}
+		return false
+	}
+	heldAt := func(fn *ssa.Function, in ssa.Instruction) bool {
+		if fl := e.fns[fn]; fl != nil {
+			if st := fl.at[in]; st != nil && st.mustHoldsW(lock) {
+				return true
+			}
+		}
+		return false
+	}
+	n := 0
+	for _, key := range []string{"internal/dkg.(*Process).Command", "internal/dkg.(*Process).Packet"} {
+		root := c.P.Fn(key)
+		if !c.Anchor(rule, key, root != nil) {
+			continue
+		}
+		// functions run synchronously (same goroutine) on behalf of the request, with whether the mutex is held on entry
+		type item struct {
+			fn   *ssa.Function
+			held bool
+		}
+		seen := map[*ssa.Function]bool{root: true}
+		work := []item{{root, false}}
+		for len(work) > 0 {
+			it := work[0]
+			work = work[1:]
+			for _, ci := range callsIn(it.fn, func(ci ssa.CallInstruction) bool { _, isCall := ci.(*ssa.Call); return isCall }) {
+				in := ci.(ssa.Instruction)
+				held := it.held || heldAt(it.fn, in)
+				if isStoreAccess(ci) {
+					n++
+					c.Ok(rule, fnShort(it.fn)+" calls Store."+ci.Common().Method.Name()+" inside the process critical section (request path of "+root.Name()+")", shortPos(c.P, ci), held,
+						"the state read or saved here is the one the transition is decided on: the process mutex must be held from the read to the save")
+					continue
+				}
+				callee := ci.Common().StaticCallee()
+				if callee == nil || callee.Blocks == nil || seen[callee] || fnPkgPath(callee) != modPath+"/internal/dkg" {
+					continue
+				}
+				if callee.Signature.Recv() == nil || typeShort(callee.Signature.Recv().Type()) != "internal/dkg.Process" {
+					continue
+				}
+				seen[callee] = true
+				work = append(work, item{callee, held})
+			}
+		}
+	}
+	c.Floor(rule, "state store accesses on the command and packet paths", n, 6)
 }
